@@ -902,8 +902,14 @@ class Interp:
         if isinstance(v, ClassObj):
             if name == "__mro__":
                 return PList(self, v.mro, frozen=True)
-            if name == "__name__":
+            if name == "__name__" or name == "__qualname__":
                 return v.name
+            if name == "__bases__":
+                return PList(self, list(v.bases), frozen=True)
+            if name == "__base__":
+                return v.bases[0] if v.bases else None
+            if name == "__module__":
+                return v.module
             for c in v.mro:
                 if name in c.ns:
                     a = c.ns[name]
